@@ -64,6 +64,7 @@ type Endpoint struct {
 	cond    *sync.Cond
 	chainID *big.Int
 	nonce   uint64
+	autoNon bool // count every accepted raw transaction as pending (SetAutoNonce)
 	price   *big.Int
 	baseFee *big.Int
 	script  map[string]Outcome
@@ -201,6 +202,10 @@ func (e *Endpoint) ClearScript() {
 }
 func (e *Endpoint) SetCallFn(f CallFn) { e.mu.Lock(); e.callFn = f; e.mu.Unlock() }
 func (e *Endpoint) SetNonce(n uint64)  { e.mu.Lock(); e.nonce = n; e.mu.Unlock() }
+
+// SetAutoNonce makes the endpoint behave like a chain node as to nonces: every raw transaction it accepts raises what
+// it answers to eth_getTransactionCount(pending) by one (without it the harness moves the nonce itself).
+func (e *Endpoint) SetAutoNonce(on bool) { e.mu.Lock(); e.autoNon = on; e.mu.Unlock() }
 func (e *Endpoint) SetGasPrice(p *big.Int) {
 	e.mu.Lock()
 	e.price = new(big.Int).Set(p)
@@ -473,6 +478,11 @@ func (a *ethAPI) SendRawTransaction(ctx context.Context, data hexutil.Bytes) (co
 	if err := tx.UnmarshalBinary(data); err != nil {
 		return common.Hash{}, err
 	}
+	a.e.mu.Lock()
+	if a.e.autoNon {
+		a.e.nonce++
+	}
+	a.e.mu.Unlock()
 	return tx.Hash(), nil
 }
 
